@@ -16,7 +16,7 @@ open Selium.Gen.KeepAlive
     requestor starts a reply reader for the new stream, and connection-level errors (and a replier slot still
     being occupied) are classified as recoverable -/
 theorem budgets_per_outage : replierBudgetPerOutage = true ∧ requestorBudgetPerOutage = true ∧
-    pubsubBudgetPerOutage = true ∧ requestorRestartsReader = true := by decide
+    pubsubBudgetPerOutage = true ∧ requestorRestartsReader = true ∧ replierRefusalCountsAsAttempt = true := by decide
 
 theorem recoverable_classification : ioConnectionResetRecoverable = true ∧ ioNotConnectedRecoverable = true ∧
     quicConnectionErrorRecoverable = true ∧ replierAlreadyBoundRecoverable = true := by decide
@@ -159,6 +159,64 @@ theorem c12_survives_any_number_of_outages (m : Nat) (hm : 0 < m) (n : Nat) :
       exact ih
     rw [this]
 
+/-! ### the replier: outages and refused registrations -/
+
+/-- A replier whose every registration is refused (another replier stays bound; the server is reachable, so each
+    reconnection itself succeeds at once) reports too-many-retries after exactly `maxAttempts` tries — it does not
+    retry for ever. -/
+theorem c12_displaced_replier_gives_up (m k : Nat) :
+    replierLife true true m m (List.replicate (m + 1 + k) { refused := true, attempts := [.ok] }) =
+      List.replicate m Outcome.reconnected ++ [.tooManyRetries] := by
+  suffices h : ∀ left n, left < n →
+      replierLife true true m left (List.replicate n { refused := true, attempts := [.ok] }) =
+        List.replicate left Outcome.reconnected ++ [.tooManyRetries] from h m (m + 1 + k) (by omega)
+  intro left
+  induction left with
+  | zero =>
+    intro n hn
+    cases n with
+    | zero => omega
+    | succ n => simp [List.replicate_succ, replierLife, reconnect]
+  | succ l ih =>
+    intro n hn
+    cases n with
+    | zero => omega
+    | succ n =>
+      simp only [List.replicate_succ, replierLife, Bool.and_self, if_true, reconnect, List.headD_cons]
+      rw [show l + 1 - 1 = l from rfl, ih n (by omega)]
+      rfl
+
+/-- … while a cut always starts a new outage with the full budget, whatever happened before (refusals included) -/
+theorem c12_replier_cut_gets_full_budget (m left : Nat) (as : List Attempt) (ss : List Session) :
+    replierLife true true m left ({ refused := false, attempts := as } :: ss) =
+      match reconnect m as with
+      | (.reconnected, used) => .reconnected :: replierLife true true m (m - used) ss
+      | (out, _) => [out] := by
+  simp only [replierLife, Bool.false_and, Bool.false_eq_true, if_false, if_true]
+  rfl
+
+/-- a waiting replier that still has attempts left takes over as soon as a registration is not refused: refusals
+    fewer than the budget are all survived -/
+theorem c12_waiting_replier_survives (m k : Nat) (hk : k ≤ m) :
+    replierLife true true m m (List.replicate k { refused := true, attempts := [.ok] }) =
+      List.replicate k Outcome.reconnected := by
+  suffices h : ∀ left n, n ≤ left →
+      replierLife true true m left (List.replicate n { refused := true, attempts := [.ok] }) =
+        List.replicate n Outcome.reconnected from h m k hk
+  intro left n
+  induction n generalizing left with
+  | zero => intro _; rfl
+  | succ n ih =>
+    intro hn
+    cases left with
+    | zero => omega
+    | succ l =>
+      simp only [List.replicate_succ, replierLife, Bool.and_self, if_true, reconnect, List.headD_cons]
+      rw [show l + 1 - 1 = l from rfl, ih l (by omega)]
+
+example : replierLife true false 3 3 (List.replicate 9 { refused := true, attempts := [.ok] }) = List.replicate 9 .reconnected := by decide
+example : replierLife true true 3 3 (List.replicate 9 { refused := true, attempts := [.ok] }) = [.reconnected, .reconnected, .reconnected, .tooManyRetries] := by decide
+
 /-- … whereas a lifetime budget (the unrepaired replier) gives up after `maxAttempts` outages in total -/
 example : life false 2 2 (List.replicate 4 [Attempt.ok]) = [.reconnected, .reconnected, .tooManyRetries] := by decide
 example : life true 2 2 (List.replicate 4 [Attempt.ok]) = [.reconnected, .reconnected, .reconnected, .reconnected] := by decide
@@ -175,3 +233,6 @@ end Selium.KeepAlive
 #print axioms Selium.KeepAlive.c12_recovers
 #print axioms Selium.KeepAlive.c12_budget_per_outage
 #print axioms Selium.KeepAlive.c12_survives_any_number_of_outages
+#print axioms Selium.KeepAlive.c12_displaced_replier_gives_up
+#print axioms Selium.KeepAlive.c12_replier_cut_gets_full_budget
+#print axioms Selium.KeepAlive.c12_waiting_replier_survives
